@@ -84,10 +84,10 @@ def stepLine (s : HealthState) (line : String) (lineNo : Nat) : HealthState :=
     { s with pending := [checkObs (Health.check s.heap (expectedOf (fields rest)))] }
   | "HCS" :: rest =>
     let s := { s with rep := { s.rep with ops := s.rep.ops + 1 } }
-    { s with pending := [checkObs (Health.checkStorage idCodec id s.sto (expectedOf (fields rest)))] }
+    { s with pending := [checkObs (Health.checkStorage idCodec (fun _ v => v) s.sto (expectedOf (fields rest)))] }
   | "ITER" :: _ =>
     let s := { s with rep := { s.rep with ops := s.rep.ops + 1 } }
-    match Health.slabIterator idCodec id s.sto with
+    match Health.slabIterator idCodec (fun _ v => v) s.sto with
     | .ok ys => { s with pending := ["OBS ok:" ++ idList (ys.map (·.1))] }
     | .error e => { s with pending := ["OBS err:" ++ herr e] }
   | "REFS" :: rest =>
